@@ -87,7 +87,8 @@ static std::string gen(const std::string &prop, uint64_t base, uint64_t idx, boo
                 pay = std::max(pay, off);
             }
             int me = id++;
-            line(strf("buf id=%d task=%d fmt=%s pay=%d", me, t, f->name, pay));
+            // placement: every byte address (results may depend only on the buffer's bytes, not on where it lies)
+            line(strf("buf id=%d task=%d fmt=%s pay=%d align=%d", me, t, f->name, pay, (int)(r.chance(0.5) ? 0 : r.below(8))));
             bufs.push_back({me, t, f});
             for (auto &s : subs) {
                 line(strf("buf id=%d task=%d fmt=%s parent=%d off=%d", id, t, s.first->name, me, s.second));
@@ -129,15 +130,26 @@ static std::string gen(const std::string &prop, uint64_t base, uint64_t idx, boo
             const char *via = via_for(fl, true);
             if (!via) continue;
             unsigned lim = !strcmp(via, "ded") ? fl->set_bits : !strcmp(via, "leg") ? f->legacy_val_bits : 64;
-            line(strf("op b=%d set f=%s via=%s v=0x%llx", b.id, fl->name, via, (unsigned long long)pick_value(r, fl->width, lim)));
+            if (r.chance(0.2)) {
+                // value derived from what the field holds at that moment (resolved when the history is executed)
+                static const char *vk[] = {"same", "bswap", "low32", "high32", "inv", "inc", "dec", "topbit", "shl8", "shr8"};
+                line(strf("op b=%d set f=%s via=%s vk=%s", b.id, fl->name, via, vk[r.below(10)]));
+            } else {
+                line(strf("op b=%d set f=%s via=%s v=0x%llx", b.id, fl->name, via, (unsigned long long)pick_value(r, fl->width, lim)));
+            }
             written[b.id].push_back(fl->name);
         } else if (k < 80) {
             const BindField *fl = pick_field(true);
             const char *via = via_for(fl, false);
             if (!via) continue;
             line(strf("op b=%d get f=%s via=%s", b.id, fl->name, via));
-        } else if (k < 85) {
+        } else if (k < 83) {
             line(strf("op b=%d again", b.id));
+        } else if (k < 86) {
+            const BindField *fl = pick_field(true);
+            if (!fl->fused) continue;
+            line(strf("op b=%d fused f=%s v=0x%llx init=%d", b.id, fl->name, (unsigned long long)pick_value(r, fl->width, fl->set_bits), (int)(f->init && r.chance(0.25))));
+            written[b.id].push_back(fl->name);
         } else if (k < 93) {
             const BindField *f1 = pick_field(false), *f2 = pick_field(false);
             if (f1 == f2) continue;
@@ -150,7 +162,7 @@ static std::string gen(const std::string &prop, uint64_t base, uint64_t idx, boo
             written[b.id].push_back(f1->name);
             written[b.id].push_back(f2->name);
         } else {
-            line(strf("op b=%d reloc", b.id));
+            line(strf("op b=%d reloc align=%d", b.id, (int)(r.chance(0.4) ? 0 : r.below(8))));
         }
     }
     return o;
@@ -159,7 +171,8 @@ static std::string gen(const std::string &prop, uint64_t base, uint64_t idx, boo
 // ------------------------------------------------------------------ execution
 constexpr size_t kGuard = 16;
 
-struct Alloc {  // one top-level allocation: [guard][header][payload][guard]
+struct Alloc {  // one top-level allocation: [guard][header][payload][guard], placed at raw + align
+    uint8_t *raw = nullptr;
     uint8_t *mem = nullptr;
     size_t size = 0;
     std::vector<uint8_t> model;
@@ -265,7 +278,8 @@ static void exec(const std::string &text, bool verbose) {
             } else {
                 Alloc a;
                 a.size = kGuard + b.f->spec_bytes + kv.u64("pay") + kGuard;
-                a.mem = (uint8_t *)malloc(a.size);
+                a.raw = (uint8_t *)malloc(a.size + 8);
+                a.mem = a.raw + (kv.u64("align", 0) & 7);
                 fill_garbage(a.mem, a.size, garbage);
                 a.model.assign(a.mem, a.mem + a.size);
                 b.alloc = (int)allocs.size();
@@ -316,7 +330,24 @@ static void exec(const std::string &text, bool verbose) {
             std::string via = kv.str("via");
             if (!fl) continue;
             if ((via == "gen" && (!f->setfield || fl->field_id < 0)) || (via == "ded" && !fl->set) || (via == "leg" && (!f->legacy_set || fl->field_id < 0))) continue;
-            uint64_t v = arg_value(f, fl, via, kv.u64("v"));
+            uint64_t raw_v = kv.u64("v");
+            if (kv.has("vk")) {
+                std::string vk = kv.str("vk");
+                uint64_t cur = fl->width ? wire::get_bits(mpdu, fl->bit, fl->width) : 0, m = mask_w(fl->width);
+                unsigned nb = (fl->width + 7) / 8;
+                if (vk == "same") raw_v = cur;
+                else if (vk == "bswap") { raw_v = 0; for (unsigned i = 0; i < nb; i++) raw_v |= ((cur >> (8 * i)) & 0xff) << (8 * (nb - 1 - i)); }
+                else if (vk == "low32") raw_v = cur & 0xffffffffULL;
+                else if (vk == "high32") raw_v = cur >> 32;
+                else if (vk == "inv") raw_v = ~cur & m;
+                else if (vk == "inc") raw_v = cur + 1;
+                else if (vk == "dec") raw_v = cur - 1;
+                else if (vk == "topbit") raw_v = cur ^ ((m >> 1) + 1);
+                else if (vk == "shl8") raw_v = cur << 8;
+                else if (vk == "shr8") raw_v = cur >> 8;
+                per_entry["value.derived"]++;
+            }
+            uint64_t v = arg_value(f, fl, via, raw_v);
             ev("set", strf("b=%d %s.%s via=%s v=0x%llx", b.id, f->name, fl->name, via.c_str(), (unsigned long long)v));
             do_write(f, fl, via, pdu, v);
             wire::set_bits(mpdu, fl->bit, fl->width, v & mask_w(fl->width));
@@ -362,6 +393,28 @@ static void exec(const std::string &text, bool verbose) {
                 if (b.wr_via[fl->name] == "leg" && via != "leg") pr_leg_cur++;
                 if (b.wr_task_seq[fl->name] != task_switches) pr_switch_rw++;
             }
+            continue;
+        }
+        if (what == "fused") {
+            const BindField *fl = find_field(f, kv.str("f"));
+            if (!fl || !fl->fused) continue;
+            bool with_init = kv.u64("init", 0) && f->init;
+            uint64_t v = arg_value(f, fl, "ded", kv.u64("v"));
+            uint64_t want_before = fl->width ? wire::get_bits(mpdu, fl->bit, fl->width) : 0, before = 0;
+            ev("fused", strf("b=%d %s.%s v=0x%llx init=%d", b.id, f->name, fl->name, (unsigned long long)v, (int)with_init));
+            uint64_t after = fl->fused(pdu, v, &before, with_init);
+            if (with_init) memcpy(mpdu, f->init_bytes, f->spec_bytes);
+            else wire::set_bits(mpdu, fl->bit, fl->width, v & mask_w(fl->width));
+            uint64_t want_after = fl->width ? wire::get_bits(mpdu, fl->bit, fl->width) : 0;
+            per_entry["entry.fused"]++;
+            if (before != want_before || after != want_after)
+                violation(strf("read:%s.%s:fused", f->name, fl->name),
+                          strf("read / %s / read of %s.%s in one caller returned 0x%llx then 0x%llx, the field held 0x%llx and then 0x%llx", with_init ? "init" : "write",
+                               f->name, fl->name, (unsigned long long)before, (unsigned long long)after, (unsigned long long)want_before, (unsigned long long)want_after));
+            check_bytes(strf("%s.%s:fused", f->name, fl->name), strf("after read/%s/read of %s.%s", with_init ? "init" : "write", f->name, fl->name));
+            b.has_last = false;
+            b.wr_seq[fl->name] = op_index; b.wr_task_seq[fl->name] = task_switches; b.wr_via[fl->name] = "ded";
+            if (with_init) b.wr_seq.clear();
             continue;
         }
         if (what == "again") {
@@ -414,10 +467,12 @@ static void exec(const std::string &text, bool verbose) {
         if (what == "reloc") {
             // only the bytes survive: new address, old block and everything dead is overwritten with fresh garbage
             ev("reloc", strf("b=%d", b.id));
-            uint8_t *n = (uint8_t *)malloc(a.size);
+            uint8_t *nraw = (uint8_t *)malloc(a.size + 8);
+            uint8_t *n = nraw + (kv.u64("align", 0) & 7);
             memcpy(n, a.mem, a.size);
             fill_garbage(a.mem, a.size, garbage);
-            free(a.mem);
+            free(a.raw);
+            a.raw = nraw;
             a.mem = n;
             for (auto &x : bufs)
                 if (x.second.alloc == b.alloc) x.second.last_reloc = op_index;
@@ -440,6 +495,7 @@ static void exec(const std::string &text, bool verbose) {
     g_res.counters["probe.acf_message_inside_control_pdu"] = pr_sub;
     g_res.counters["probe.same_quadlet_interference_read"] = pr_nontrivial;
     g_res.counters["task_switches"] = task_switches;
+    { uint64_t ua = 0; for (auto &a : allocs) if (((uintptr_t)a.mem + kGuard) & 3) ua++; g_res.counters["probe.unaligned_placement"] = ua; }
     for (auto &p : per_entry) g_res.counters[p.first] = p.second;
     if (!bufs.empty()) g_res.counters[std::string("scen.") + bufs.begin()->second.f->name] = 1;
     sim::finish_run(g_res);
@@ -476,10 +532,11 @@ int main(int argc, char **argv) {
              "write to a different field of the same quadlet";
     e.probes = {"probe.cross_quadlet_field_written", "probe.value_wider_than_field", "probe.relocation_between_write_and_read", "probe.legacy_write_current_read",
                 "probe.task_switch_between_write_and_read", "probe.acf_message_inside_control_pdu", "entry.set.gen", "entry.set.ded", "entry.set.leg",
-                "entry.get.gen", "entry.get.ded", "entry.get.leg", "entry.init.cur", "entry.init.legacy"};
+                "entry.get.gen", "entry.get.ded", "entry.get.leg", "entry.init.cur", "entry.init.legacy", "entry.fused", "value.derived",
+                "probe.unaligned_placement"};
     e.real_components = {"libopen1722 + libopen1722custom objects built from /repo/src (working tree)", "call bindings generated from /repo/include at build time"};
     e.stub_components = {"callers (seeded histories)", "reference model: spec/fields.def + bit-at-a-time packer (spec/wire.h)"};
-    e.assumptions = {"spec/fields.def transcribes IEEE 1722-2016 and acf-vss.md correctly", "buffers are 4-byte aligned (alignment is C15's subject)",
+    e.assumptions = {"spec/fields.def transcribes IEEE 1722-2016 and acf-vss.md correctly", "PDUs are placed at every byte alignment; -fsanitize=alignment stays off (C15)",
                      "return codes of the legacy wrappers are not judged (C11/C12)"};
     e.quick_runs = 23000;
     e.thorough_runs = 1150000;
